@@ -188,9 +188,46 @@ let run_c10 (lines : string list) (out : out_channel) =
     output_string out (String.concat " | " (List.map (fun al -> String.concat "," (List.map string_of_int (List.sort compare (List.map int_of_n al)))) tr));
     output_char out '\n') lines
 
+(* ---------- C17: syscall call trees ---------- *)
+let parse_c17_line (l : string) : call list =
+  let nodes = Hashtbl.create 16 in
+  let top = ref [] in
+  List.iter (fun w ->
+    match String.index_opt w '=' with
+    | None -> fail "bad node %s" w
+    | Some i ->
+        let k = String.sub w 0 i and v = String.sub w (i + 1) (String.length w - i - 1) in
+        if k = "top" then top := (if v = "" then [] else List.map int_of_string (String.split_on_char ',' v))
+        else Hashtbl.replace nodes (int_of_string k) v) (words l);
+  let kids s = if s = "" then [] else List.map int_of_string (String.split_on_char ',' s) in
+  let rec build (id : int) : call =
+    match String.split_on_char ':' (Hashtbl.find nodes id) with
+    | ["sc"; t; v; ch] -> KSys (n_of_int id, ni t, ni v, List.map build (kids ch))
+    | ["nm"; name; t; v; ch] -> KNamed (n_of_int id, ni name, ni t, ni v, List.map build (kids ch))
+    | ["sy"; sid; v; ch] -> KSpawned (n_of_int id, ni sid, ni v, List.map build (kids ch))
+    | ["sp"; sid; t] -> KSpawn (n_of_int id, ni sid, ni t)
+    | ["ds"; sid] -> KDespawn (n_of_int id, ni sid)
+    | _ -> fail "bad node %d" id in
+  List.map build !top
+
+let pkey = function
+  | SkSys t -> Printf.sprintf "sys%s" (pn t) | SkNamed (n, t) -> Printf.sprintf "named%s.%s" (pn n) (pn t) | SkSpawned s -> Printf.sprintf "spawned%s" (pn s)
+let run_c17 (lines : string list) (out : out_channel) =
+  List.iter (fun l ->
+    let cs = parse_c17_line l in
+    let lg = run_case (nat_of_int 100000) cs in
+    output_string out (String.concat " | " (List.map (function
+      | SBody (id, k, t, v, local) -> Printf.sprintf "body %s %s t%s v%s l%s" (pn id) (pkey k) (pn t) (pn v) (pn local)
+      | SRet (id, Some o) -> Printf.sprintf "ret %s %s" (pn id) (pn o)
+      | SRet (id, None) -> Printf.sprintf "ret %s err" (pn id)) lg));
+    output_char out '\n') lines
+
 let () =
   let args = List.tl (Array.to_list Sys.argv) in
   match args with
+  | ["-c17"; f] ->
+      let ic = open_in f in let lines = read_lines ic in close_in ic;
+      let oc = open_out (f ^ ".model.log") in run_c17 lines oc; close_out oc
   | ["-c10"; f] ->
       let ic = open_in f in let lines = read_lines ic in close_in ic;
       let oc = open_out (f ^ ".model.log") in run_c10 lines oc; close_out oc
